@@ -585,6 +585,30 @@ pub fn run(rep: &Arc<Report>) {
         outcomes += s2.outcomes;
         exhaustive &= s2.exhaustive;
     }
+    // statements binding many values: the counts of C01 (every count to 12, both sides of 100 / 256 / 1000 ..) through every
+    // entry point and the substitution check; the first failing count of a (shape, dialect, signature) is reported
+    let mut many = 0u64;
+    for shape in 0..2usize {
+        for d in DIALECTS {
+            let mut reported: std::collections::HashSet<String> = Default::default();
+            for &k in &crate::props::c01::many_value_counts(rep.thorough()) {
+                many += 1;
+                let (q, _) = crate::props::c01::many_values_statement(shape, k);
+                let fails = match &q {
+                    crate::props::c01::ManyStmt::Sel(q) => entry_all(q, d),
+                    crate::props::c01::ManyStmt::Ins(q) => entry_all(q, d),
+                };
+                for fail in fails {
+                    rep.raw_failures.inc();
+                    if reported.insert(fail.sig.clone()) {
+                        let det: String = fail.detail.chars().take(500).collect();
+                        rep.violation(Violation { key: format!("many-values|{}|{}|{}|{} values", if shape == 0 { "in-list" } else { "insert-rows" }, d.name(), fail.sig, k), what: format!("{} values: {}", k, det), case: json!({"many_values": k, "shape": shape, "dialect": d.name()}) });
+                    }
+                }
+            }
+        }
+    }
+    rep.set("many_values_cases", json!(many));
     let sweep = value_sweep(rep);
     let wq = with_query_family(rep);
     rep.set("with_query_cases", json!(wq));
